@@ -4,6 +4,7 @@
 // One input line = one self-contained history: ops separated by ';'. Printing ops' results are joined by " | ".
 #include "cbface.h"
 #include <graphite2/Segment.h>
+#include "inc/Font.h"        // op A asks Font::advance itself (the hinted-advance cache); everything else is public API
 #include <cmath>
 #include <memory>
 
@@ -21,6 +22,18 @@ static std::vector<std::string> split(const std::string &s, char c) {
     return r;
 }
 static std::string fl(float v) { char b[48]; if (std::isnan(v)) return "nan"; if (std::isinf(v)) return v > 0 ? "inf" : "-inf"; snprintf(b, sizeof b, "%a", (double)v); return b; }
+
+// hinted fonts (gr_make_font_with_ops): the application's advance callback is a pure function of the glyph id
+struct Hint { int kind = 0; unsigned long calls = 0; };
+static float hint_adv(const void *h, gr_uint16 gid) {
+    Hint *x = (Hint *)h; ++x->calls;
+    switch (x->kind) {
+    case 0: return 6.0f + (gid % 16) / 16.0f;                               // fractional pixels
+    case 1: return gid % 3 == 0 ? -1.0f : 7.0f + (gid % 8) / 8.0f;           // "could not hint this glyph"
+    case 2: return gid % 5 == 0 ? -1e38f : 5.5f;                             // the cache's own sentinel value
+    default: return 40000.25f + gid;                                         // beyond 16 bits
+    }
+}
 
 struct SegRec { gr_segment *seg = 0; int face = -1; int font = -1; std::vector<const gr_slot *> lines; };
 
@@ -108,6 +121,7 @@ int main(int argc, char **argv) {
     while (std::getline(std::cin, line)) {
         g_faults = 0; g_loop_iter = g_loop_bound = g_loop_calls = 0; g_loop_exceeded = 0;
         std::vector<std::unique_ptr<CbFace>> cbs(8);
+        Hint hints[8];
         gr_face *faces[8] = {0}; gr_font *fonts[8] = {0}; gr_feature_val *fvs[8] = {0}; SegRec segs[8];
         std::string out;
         auto emit = [&](const std::string &s) { out += (out.empty() ? "" : " | ") + s; };
@@ -129,6 +143,25 @@ int main(int argc, char **argv) {
                 int f = atoi(a[0].c_str()) & 7; float ppm = atof(a[1].c_str());
                 if (fonts[k]) gr_font_destroy(fonts[k]);
                 fonts[k] = faces[f] ? gr_make_font(ppm, faces[f]) : 0;
+            } else if (c == 'H' && a.size() == 3) {       // H<k>=<face>,<ppm>,<kind>: a hinted font
+                int f = atoi(a[0].c_str()) & 7; float ppm = atof(a[1].c_str());
+                if (fonts[k]) gr_font_destroy(fonts[k]);
+                hints[k] = Hint(); hints[k].kind = atoi(a[2].c_str());
+                gr_font_ops ops = { sizeof(gr_font_ops), &hint_adv, 0 };
+                fonts[k] = faces[f] ? gr_make_font_with_ops(ppm, &hints[k], &ops, faces[f]) : 0;
+            } else if (c == 'A') {                        // A<k>=<gid>,...: Font::advance(gid) on font k; '*' = the callback was called
+                if (!fonts[k]) { emit("nofont"); continue; }
+                const graphite2::Font *fo = fonts[k];
+                std::string r = "a=";
+                for (size_t i = 0; i < a.size(); ++i) {
+                    unsigned gid = atoi(a[i].c_str());
+                    unsigned long before = hints[k].calls;
+                    float v = fo->advance((unsigned short)gid);
+                    if (v == -1e38f) r += "S"; else { snprintf(buf, sizeof buf, "%ld", (long)(v * 16)); r += buf; if (v * 16 != (float)(long)(v * 16)) r += "?"; }
+                    if (hints[k].calls != before) r += "*";
+                    if (i + 1 < a.size()) r += " ";
+                }
+                emit(r);
             } else if (c == 'V' && a.size() == 2) {
                 int f = atoi(a[0].c_str()) & 7;
                 if (fvs[k]) gr_featureval_destroy(fvs[k]);
